@@ -711,6 +711,81 @@ pub fn s6_placement(p: &Plan, sink: &mut Sink) {
     }
 }
 
+/// S9: encoding length and code placement.  Every (Code, form) once more (a) padded with
+/// ignored segment prefixes to the architectural maximum of 15 bytes, (b) as the last instruction
+/// of the code page (the 15-byte fetch window must be clipped at the end of the area, and RIP
+/// ends up exactly at the end of the code), (c) both.
+pub fn s9_encoding(p: &Plan, scope: Scope, sink: &mut Sink) {
+    sink.tag = "S9".into();
+    let pads = [0x3Eu8, 0x2E, 0x26, 0x36];
+    for t in p.canon {
+        let d0 = match decode_at(&t.bytes, IP) {
+            Some(d) => d,
+            None => continue,
+        };
+        if !in_scope(&d0.instr, scope) {
+            continue;
+        }
+        let plain = t.bytes[..d0.instr.len()].to_vec();
+        let mut padded: Vec<u8> = vec![];
+        for k in 0..15usize.saturating_sub(plain.len()) {
+            padded.push(pads[k % 4]);
+        }
+        padded.extend_from_slice(&plain);
+        let mut variants: Vec<(Vec<u8>, usize, &str)> = vec![(plain.clone(), PAGE as usize - plain.len(), "end-of-code-page")];
+        match decode_at(&padded, IP) {
+            Some(dp) if dp.instr.code() == d0.instr.code() && dp.instr.len() == 15 => {
+                variants.push((padded.clone(), OFF, "len15"));
+                variants.push((padded.clone(), PAGE as usize - 15, "len15,end-of-code-page"));
+            }
+            _ => {}
+        }
+        for (bytes, off, class) in variants {
+            let ip = CODE + off as u64;
+            let d = match decode_at(&bytes, ip) {
+                Some(d) => d,
+                None => continue,
+            };
+            for f in [0u64, ALL_FLAGS] {
+                if !sink.next() {
+                    continue;
+                }
+                let mut s = default_sigma(off);
+                s.flags = f;
+                s.gpr[1] = 2; // a non-zero, small RCX: shifts by CL and JRCXZ/loops stay benign
+                let mut b = bytes.clone();
+                let mut pokes = vec![];
+                if has_mem(&d.instr) {
+                    match place(&b, ip, DEFAULT_TARGET, 0x10, 0x10, 0xABCD_EF01_0000_0000, &mut s.gpr, 0, 0) {
+                        Some(pl) => {
+                            b = pl.bytes;
+                            // a positive operand value: this sweep varies the encoding, the
+                            // value-dependent behaviour (and its one open finding, IDIV r/m64
+                            // with a negative divisor) belongs to S1/S5
+                            let n = analyze(&mut sink.fac, &d.instr).mem_size.clamp(1, 16);
+                            let pat = [0x08u8, 0x07, 0x06, 0x05, 0x04, 0x03, 0x02, 0x01, 0x18, 0x17, 0x16, 0x15, 0x14, 0x13, 0x12, 0x11];
+                            pokes.push((pl.ea, pat[..n].to_vec()));
+                        }
+                        None => {
+                            sink.unplaceable += 1;
+                            continue;
+                        }
+                    }
+                }
+                sink.run(Case {
+                    bytes: b,
+                    off,
+                    sigma: s,
+                    pokes,
+                    tag: "S9".into(),
+                    extra_class: class.to_string(),
+                    subject: String::new(),
+                });
+            }
+        }
+    }
+}
+
 /// S3: addressing forms.  Probe opcodes × every ModRM/SIB/REX.X/B/displacement/segment/address
 /// size × register value patterns.
 pub fn s3_addressing(p: &Plan, sink: &mut Sink) {
